@@ -691,24 +691,49 @@ def parse_out(out):
     return calls, w[3][2:]
 
 
-def check_calls(got, want, after, prefix, table, mode_fn):
+def check_calls(got, must, allowed, prefix, mode_fn):
+    """the reported pairs as a multiset (the statement fixes no order): every pair of `must` exactly once, nothing
+    else but - at most once each - the pairs of `allowed`; the buffer; the dispatch of every reported address"""
+    from collections import Counter
     calls, b = got
-    if [(c[0], c[1]) for c in calls] != [(ixs(ix), a) for ix, a in want]:
-        k = next((i for i, (c, e) in enumerate(zip(calls, want)) if (c[0], c[1]) != (ixs(e[0]), e[1])), min(len(calls), len(want)))
-        exp = "%s:%s" % (ixs(want[k][0]), want[k][1].decode("latin1")) if k < len(want) else "end"
-        return "walk: %d pairs reported, %d expected; first difference at #%d (expected %s)" % (len(calls), len(want), k, exp)
+    rep = Counter((c[0], c[1]) for c in calls)
+    mst = Counter((ixs(ix), a) for ix, a in must)
+    alw = Counter((ixs(ix), a) for ix, a in allowed)
+    missing = mst - rep
+    extra = (rep - mst) - alw
+    if missing or extra:
+        def show(c):
+            (ix, a), n = sorted(c.items())[0]
+            return "%s:%s%s" % (ix, a.decode("latin1"), " (%d times)" % n if n > 1 else "")
+        what = []
+        if missing:
+            what.append("%d expected report(s) missing, e.g. %s" % (sum(missing.values()), show(missing)))
+        if extra:
+            what.append("%d report(s) too many, e.g. %s" % (sum(extra.values()), show(extra)))
+        return "walk: %d pairs reported, %d expected; %s" % (len(calls), len(must), "; ".join(what))
     if b != hx(prefix):
         return "buffer afterwards holds %s, expected the prefix %s" % (b, hx(prefix))
-    for (ix, a, d), (eix, _) in zip(calls, want):
+    for ix, a, d in calls:
         if d is None:
             return "no dispatch result for %s" % ix
-        mode = mode_fn(eix)
+        mode = mode_fn(tuple(int(x) for x in ix.split(".")))
         if mode == "strict":
             if d != [ix]:
                 return "dispatch of %s reaches %s, expected exactly the reported port %s" % (a.decode("latin1"), d or "no port", ix)
         elif mode == "weak" and ix not in d:
             return "dispatch of %s reaches %s, not the reported port %s" % (a.decode("latin1"), d or "no port", ix)
     return None
+
+
+def op_tokens(words):
+    """trailing tokens sz=<n> and opt=<pairs>"""
+    size, opt = None, []
+    for t in words:
+        if t.startswith("sz="):
+            size = int(t[3:])
+        elif t.startswith("opt=") and t != "opt=-":
+            opt += t[4:].split(",")
+    return size, opt
 
 
 def oracle(op, out):
@@ -735,19 +760,34 @@ def oracle(op, out):
         if got is None:
             return "unreadable output: " + out[:80]
         want = enumerate_tree(tree, eff)
-        return check_calls(got, want, got[1], eff, tree, (lambda ix: disp_mode(tree, ix)) if strict else (lambda ix: "skip"))
+        return check_calls(got, want, [], eff, (lambda ix: disp_mode(tree, ix)) if strict else (lambda ix: "skip"))
     # runtime
     table = parse_tree(w[2])
     obj = parse_obj(w[3])
     buf = unhx(w[4])
-    prefix = buf[:buf.index(0)] or b"/"
+    prefix = buf[:buf.index(0)]
+    eff = prefix or b"/"
+    if not prefix and (len(buf) < 2 or buf[1] != 0):
+        return None
+    if len(buf) < len(eff) + need(table) + 1:
+        return None
+    must, opn = pruned(table, obj, eff)
+    size, dropped = op_tokens(w[5:])
+    if size is not None and size < max([len(a) for _, a in must + opn] + [len(eff)]) + 1:
+        return None
     if out.startswith("crash") or out in ("W oob", "W undef", "tree-mismatch", "bad-spec", "bad-op"):
         return "walk with runtime did not complete: " + out
     got = parse_out(out)
     if got is None:
         return "unreadable output: " + out[:80]
-    want = pruned(table, obj, prefix)
-    return check_calls(got, want, got[1], prefix, table, lambda ix: "strict")
+    # one report of every pair named by opt= was dropped from the output already
+    allowed = list(opn)
+    for k in dropped:
+        for j, (ix, a) in enumerate(allowed):
+            if pair_key(ix, a) == k:
+                del allowed[j]
+                break
+    return check_calls(got, must, allowed, eff, lambda ix: "strict")
 
 
 # ------------------------------------------------------------------ known finding C09-K1
@@ -755,6 +795,7 @@ def known(op, impl_out, model_out, defs):
     """leaf names with more than one '#': attributed only if the trigger holds, the implementation reports exactly
     what the defect-mirroring description predicts (only the first '#' of a leaf expanded, everything else as the
     statement says) and — when the model ran — implementation and model agree"""
+    from collections import Counter
     ids = [d.get("id") for d in defs]
     if "C09-K1" not in ids:
         return None
@@ -774,10 +815,11 @@ def known(op, impl_out, model_out, defs):
     prefix = buf[:buf.index(0)] or b"/"
     want = enumerate_tree(tree, prefix, (), expand_first)
     calls, b = got
-    if [(c[0], c[1]) for c in calls] != [(ixs(ix), a) for ix, a in want] or b != hx(prefix):
+    if Counter((c[0], c[1]) for c in calls) != Counter((ixs(ix), a) for ix, a in want) or b != hx(prefix):
         return None
     # every pair that is not a half-expanded leaf must still dispatch to its port
-    for (ix, a, d), (eix, _) in zip(calls, want):
+    for ix, a, d in calls:
+        eix = tuple(int(x) for x in ix.split("."))
         p = tree
         for i in eix[:-1]:
             p = p[i].sub
